@@ -88,6 +88,8 @@ def generate_cfg(work, bindir, name, spec, extra_flags=None, outname=None):
     if spec.get("attrs", {}).get("Wrapper"):
         # wrapper unions do not support defaults in PopulateDefaults generation
         common = [f for f in common if f != "-generate_populate_defaults"]
+    if spec.get("pathstructs"):
+        cmd += ["-generate_path_structs", "-path_structs_output_file=" + os.path.join(outdir, pkg + "_path.go")]
     cmd += common + spec["flags"] + (extra_flags or []) + files
     rc, out = sh(cmd, cwd=work)
     if rc != 0:
@@ -128,8 +130,11 @@ def write_shim(work, cfgs):
     for name, spec in cfgs.items():
         attrs = ", ".join("%s: %s" % (k, "true" if v else "false") for k, v in spec["attrs"].items())
         files = ", ".join(json.dumps(os.path.join(spec.get("ydir", os.path.join(VERIF, "schemas")), f)) for f in spec["files"])
-        lines.append('\tlib.Register(&lib.Cfg{Name: %s, SchemaFn: %s.Schema, YangFiles: []string{%s}, YangPath: %s, %s})'
-                     % (json.dumps(name), spec["pkg"], files, json.dumps(spec.get("path", os.path.join(VERIF, "schemas"))), attrs))
+        extra = ""
+        if spec.get("pathstructs"):
+            extra = ", PathRoot: func() interface{} { return %s.DeviceRoot(\"\") }" % spec["pkg"]
+        lines.append('\tlib.Register(&lib.Cfg{Name: %s, SchemaFn: %s.Schema, YangFiles: []string{%s}, YangPath: %s, %s%s})'
+                     % (json.dumps(name), spec["pkg"], files, json.dumps(spec.get("path", os.path.join(VERIF, "schemas"))), attrs, extra))
     lines += ["}", ""]
     p = os.path.join(d, "cfgs.go")
     with open(p, "w") as fh:
